@@ -31,7 +31,9 @@ class FunctionInfo:
                 self.kind = "staticmethod"
             elif d == "classmethod":
                 self.kind = "classmethod"
-            elif d == "property":
+            elif d == "property" or d.split(".")[-1] == "cached_property":
+                # functools.cached_property has the VALUE semantics of a property; whether keeping the value is sound is a separate
+                # question decided by the cache rules (c10.global_state / stale_cache_attrs, R19.8)
                 self.kind = "property"
             elif d.endswith(".setter"):
                 self.kind = "setter"
